@@ -179,14 +179,25 @@ def search(res):
             d, ev, pattern = 3, [1.0, 1.0, 2.0], "repeated"
         case = cases.physical_case(rng, "quick", d=d, n=2 if d > 2 else 3)
         case["coupling"] = np.diag(np.array(ev, dtype=complex))
+        if i == 1:
+            # beyond a finite memory with an additional correlation time (the back-integrated
+            # tables, dk < 0, must be reduced like all others)
+            case["dkmax"], case["tau"] = 1, 0.7 * case["dt"]
+            case["desc"]["dkmax"], case["desc"]["add_correlation_time"] = 1, case["tau"]
         states = {}
-        for unique in (False, True):
-            t = cases.make_tempo(case, unique=unique, epsrel=1e-11)
-            states["tempo", unique] = t.compute(cases.end_time(case), progress_type="silent").states
-            pt = cases.make_pt(case, unique=unique, epsrel=1e-11)
-            states["pt", unique] = oqupy.compute_dynamics(
-                case["system"], initial_state=case["rho0"], process_tensor=pt,
-                start_time=case["start"], progress_type="silent").states
+        try:
+            for unique in (False, True):
+                t = cases.make_tempo(case, unique=unique, epsrel=1e-11)
+                states["tempo", unique] = t.compute(cases.end_time(case), progress_type="silent").states
+                pt = cases.make_pt(case, unique=unique, epsrel=1e-11)
+                states["pt", unique] = oqupy.compute_dynamics(
+                    case["system"], initial_state=case["rho0"], process_tensor=pt,
+                    start_time=case["start"], progress_type="silent").states
+        except Exception as e:                              # noqa: BLE001 - the code failing IS the finding
+            res.fail("unique-raises:%s:%s" % ("unique" if unique else "full", pattern),
+                     {"eigenvalues": ev, "case": case["desc"], "unique": unique,
+                      "error": "%s: %s" % (type(e).__name__, str(e)[:200])})
+            continue
         if i % 2 == 0 and len(set(ev)) == d:
             # the same comparison with the coupling operator written in a rotated basis
             v = cases.rand_unitary(rng, d)
